@@ -22,6 +22,7 @@ def run(chk):
     if not proved:
         broken.append("proof obligations of Props/C01.v do not check: " + plog[-800:])
     g = evalgen.Gen(chk.rng)
+    g.wild = 0.12
     n = 40000 if thorough else 3600
     cases = []
     for i in range(n):
